@@ -23,6 +23,7 @@ namespace ratio
     {
         LOG("current time: " << to_string(current_time));
     manage_tick:
+        restore_bounds();
         while (!pulses.empty() && *pulses.cbegin() <= current_time)
         { // we have something to do..
             if (const auto starting_atms = s_atms.find(*pulses.cbegin()); starting_atms != s_atms.cend())
@@ -209,6 +210,8 @@ namespace ratio
             pulses.erase(pulses.cbegin());
         }
 
+        restore_bounds();
+
         // we update the current time..
         current_time += units_per_tick;
 
@@ -339,6 +342,32 @@ namespace ratio
                     }
                 }
             }
+    }
+
+    void executor::restore_bounds()
+    { // a backjump (ours or of the search) undoes the bounds which have been enforced within the undone levels, even if the execution variable is still true: we enforce them again and repair the plan..
+        bool restored = true;
+        while (restored && slv.get_sat_core().value(xi) == True)
+        {
+            restored = false;
+            for (const auto &adapt : adaptations)
+                if (slv.get_sat_core().value(adapt.second.sigma_xi) == True)
+                    for (const auto &bnds : adapt.second.bounds)
+                        if (const atom_adaptation::arith_bounds *aa = dynamic_cast<const atom_adaptation::arith_bounds *>(bnds.second))
+                        {
+                            const arith_item &ai = static_cast<const arith_item &>(*bnds.first);
+                            if (ai.l.vars.empty() || ai.get_type().get_name() != REAL_KEYWORD)
+                                continue;
+                            const auto [c_lb, c_ub] = slv.get_lra_theory().bounds(ai.l);
+                            if (c_lb >= aa->lb && c_ub <= aa->ub)
+                                continue; // the bounds are still enforced..
+                            restored = true;
+                            if (!propagate_bounds(ai, *aa, adapt.second.sigma_xi) && !backtrack_analyze_and_backjump())
+                                throw execution_exception();
+                        }
+            if (restored && (!slv.get_sat_core().propagate() || !slv.solve()))
+                throw execution_exception();
+        }
     }
 
     bool executor::propagate_bounds(const ratio::item &itm, const atom_adaptation::item_bounds &bounds, const smt::lit &reason)
